@@ -2785,7 +2785,8 @@ pub fn cases(prop: &str, t: Tier, seed: u64) -> Vec<Case> {
     // C04: no history of iterator calls panics either (own generator state; appended at the end of the case)
     if prop == "C04" {
         for (ci, c) in out.iter_mut().enumerate() {
-            let is_tree = c.lines.iter().any(|l| l.starts_with("mk 0 qwt") || l.starts_with("mk 0 hqwt") || l.starts_with("mk 0 wt") || l.starts_with("mk 0 hwt"));
+            // (short sequences only: a provided `nth(huge)` walks the whole remaining sequence)
+            let is_tree = c.lines.iter().any(|l| (l.starts_with("mk 0 qwt") || l.starts_with("mk 0 hqwt") || l.starts_with("mk 0 wt") || l.starts_with("mk 0 hwt")) && l.len() < 12_000);
             if !is_tree || c.tags.iter().any(|t| t == "scale" || t == "deepcode") {
                 continue;
             }
